@@ -392,7 +392,8 @@ theorem never_success_unconfirmed (c : Cfg) (acts : List Action) (f : Final) (h1
 
 /-! ## F7: the GetVBucketSeqNos shape -/
 
-/-- shape of `client.go:GetVBucketSeqNos`: no result channel, callback `err` dropped -/
+/-- shape `client.go:GetVBucketSeqNos` HAD on the pinned tree (finding F7, repaired by the
+    `fix:` commit c9cc595 in /repo): no result channel, callback `err` dropped -/
 def seqnosShape : Shape := { resultChan := false, propagatesErr := false }
 
 /-- server answers with an error status; the caller's goroutine then runs `Wait` to the end -/
@@ -409,12 +410,14 @@ theorem never_success_unconfirmed_refuted_for_seqnos :
       (run (init { shape := seqnosShape, deadline := some 60000 }) acts).cbOutcomes = [.err 1] :=
   ⟨seqnosWitness, .okEmpty, by decide, by decide, rfl, by decide⟩
 
-theorem seqnos_row_has_that_shape :
-    (lookupSite "client.go:GetVBucketSeqNos").map Wrapper.shape = some seqnosShape := by decide
+/-- after the repair the row has the ordinary shape (buffered result channel, error propagated) -/
+theorem seqnos_row_repaired :
+    (lookupSite "client.go:GetVBucketSeqNos").map Wrapper.shape
+      = some { resultChan := true, propagatesErr := true } := by decide
 
-/-- the table: the only wrapper that drops the callback's error is GetVBucketSeqNos -/
-theorem only_seqnos_drops_err :
-    (wrappers.filter (fun w => !w.propagatesErr)).map (·.site) = ["client.go:GetVBucketSeqNos"] := by decide
+/-- the table after the repair: no wrapper drops the callback's error any more -/
+theorem no_wrapper_drops_err :
+    (wrappers.filter (fun w => !w.propagatesErr)).map (·.site) = [] := by decide
 
 /-- table well-formedness used below: a row that propagates the error has a (buffered) result
     channel read after `Wait`, and every row with channels has them buffered and read late -/
@@ -436,8 +439,8 @@ theorem never_success_unconfirmed_partial (w : Wrapper) (hw : w ∈ wrappers)
   have hb := ((table_wf w hw).1 hp).1
   exact never_success_unconfirmed _ acts f h1 (by simp [Wrapper.shape, hb]) (by simp [Wrapper.shape, hp]) hf hs
 
-/-- non-vacuity: 14 of the 15 rows satisfy the hypothesis -/
-example : (wrappers.filter (·.propagatesErr)).length = 14 := by decide
+/-- non-vacuity: all 15 rows satisfy the hypothesis (14 before the F7 repair) -/
+example : (wrappers.filter (·.propagatesErr)).length = 15 := by decide
 
 /-! ## late_completion_harmless -/
 
